@@ -3,6 +3,7 @@ import Bec2Verif.Model.Crc
 import Driver.OpsCrypto
 import Driver.OpsBf3
 import Driver.OpsText
+import Driver.OpsBec2
 /-!
 Line-protocol driver of the executable model: one operation per input line,
 one canonical result line per operation.
@@ -39,7 +40,7 @@ def dispatch (line : String) : String :=
     | "crcstep" => opCrcStep args
     | "crcrow" => opCrcRow args
     | _ =>
-      match (cryptoOps ++ bf3Ops ++ textOps).find? (·.1 == op) with
+      match (cryptoOps ++ bf3Ops ++ textOps ++ bec2Ops).find? (·.1 == op) with
       | some (_, f) => f args
       | none => "bad-op"
 
